@@ -51,6 +51,8 @@ type rec struct {
 	role spectypes.BeaconRole
 	v    int
 	slot int
+	// clock when the action was recorded (a slow fetch moves it inside a tick)
+	clock int
 }
 
 type world struct {
@@ -60,6 +62,8 @@ type world struct {
 	version  int  // assignment version of the beacon node
 	vcSet    int  // 0: committee {1}, others {3}; 1: committee {1,2}, others {3}
 	failNext bool // the next duties fetch fails (one shot)
+	slowNext bool // the next duties fetch made while a tick is processed overruns the slot (one shot)
+	inTick   bool // a tick is being processed
 	log      []rec
 }
 
@@ -215,6 +219,12 @@ func (b *fakeBN) begin(ctx context.Context, epoch phase0.Epoch, indices []phase0
 	if e := ctx.Err(); e != nil {
 		return 0, r, e
 	}
+	if w.slowNext && w.inTick {
+		// the answer arrives after the next slot has begun
+		w.slowNext = false
+		w.clock.Store(w.clock.Load() + 1)
+	}
+	r.clock = int(w.clock.Load())
 	if w.failNext {
 		w.failNext = false
 		return 0, r, errFetch
@@ -298,6 +308,6 @@ func (w *world) executeDuties(_ *zap.Logger, ds []*spectypes.Duty) {
 	w.mu.Lock()
 	defer w.mu.Unlock()
 	for _, d := range ds {
-		w.log = append(w.log, rec{kind: recDispatch, role: d.Type, v: int(d.ValidatorIndex), slot: int(d.Slot)})
+		w.log = append(w.log, rec{kind: recDispatch, role: d.Type, v: int(d.ValidatorIndex), slot: int(d.Slot), clock: int(w.clock.Load())})
 	}
 }
